@@ -51,8 +51,11 @@ def _work(job):
     full, occl, stoch = areas
     # area-major iteration: the library caches ray fans per (origin, area) in a 128-entry LRU; iterating states
     # inside areas keeps the harness from thrashing it
+    # the transparent function is evaluated first AND again after the occluding ones (an observation must not depend
+    # on which observations were computed before it)
+    order = O.ALL_FUNCS + ['fully_transparent']
     for area in full:
-        for name in O.ALL_FUNCS:
+        for name in order:
             if not O.applicable(name, area):
                 continue
             if name in ('partially_occluded', 'raytracing') and area not in occl:
@@ -60,8 +63,6 @@ def _work(job):
             if name == 'stochastic_raytracing' and area not in stoch:
                 continue
             for sub, s in mine:
-                if sub and name == 'fully_transparent':
-                    continue  # opacity is irrelevant to it; covered with the empty subset
                 k, m = judge(s, area, name, seeds)
                 n += k
                 nontrivial += 1
